@@ -323,8 +323,28 @@ class Sync4(Hooked, plumpy.Process):
         return 3
 
 
-PROGRAMS = {'Async6': Async6, 'WaitAsync4': WaitAsync4, 'Failing5': Failing5, 'Sync4': Sync4, 'Sync2': Sync2, 'Async2': Async2, 'Waiter': Waiter, 'WaitAsync': WaitAsync, 'Failing': Failing}
-WAITERS = ('Waiter', 'WaitAsync', 'WaitAsync4')
+class PauseFault(Hooked, plumpy.Process):
+    """a waiting process whose on_pausing hook raises (first pause only): the failure of a pause requested in-step is reported
+    through the action future - and so through the reply of a remote pause - some time after the request was handled"""
+
+    def run(self):
+        self._rec('run')
+        return ps.Wait(self.nxt)
+
+    def nxt(self, *a):
+        self._rec('nxt', *a)
+        return 7
+
+    def on_pausing(self, msg=None):
+        n = self.__dict__['_n_pausing'] = self.__dict__.get('_n_pausing', 0) + 1
+        if n == 1:
+            raise ValueError('boom')
+        super().on_pausing(msg)
+
+
+IMPL_ONLY_PROGRAMS = ('PauseFault',)       # programs the communication model does not know: decided by the twin comparison alone
+PROGRAMS = {'PauseFault': PauseFault, 'Async6': Async6, 'WaitAsync4': WaitAsync4, 'Failing5': Failing5, 'Sync4': Sync4, 'Sync2': Sync2, 'Async2': Async2, 'Waiter': Waiter, 'WaitAsync': WaitAsync, 'Failing': Failing}
+WAITERS = ('Waiter', 'WaitAsync', 'WaitAsync4', 'PauseFault')
 
 
 # --------------------------------------------------------------------------------------------- rendering
